@@ -141,11 +141,15 @@ def walk(dialect_label, add, res):
             # dangling refs already reported above
             if "refers to" in str(e) or "Grammar refers" in str(e):
                 continue
-            add("simple_raises", {"type": "RuntimeError"}, {"node": repr(node)[:100], "msg": str(e)[:200]})
+            res["stats"]["simple_raised_other"] = res["stats"].get("simple_raised_other", 0) + 1
         except RecursionError:
+            # non-termination of the first-token hint would hang every parse that reaches the node
             add("simple_recursion", {}, {"node": repr(node)[:100]})
-        except Exception as e:
-            add("simple_raises", {"type": type(e).__name__}, {"node": repr(node)[:100], "msg": str(e)[:200]})
+        except Exception:
+            # e.g. Ref("CodeSegment") to a raw token class: resolves (which is what the statement asks)
+            # but has no match_grammar to derive a hint from. Counted, not judged: an earlier version of
+            # this check treated it as a failure, which asked for more than the property states.
+            res["stats"]["simple_raised_other"] = res["stats"].get("simple_raised_other", 0) + 1
     res["stats"]["states"] = res["stats"].get("states", 0) + len(seen)
     res["stats"]["transitions"] = res["stats"].get("transitions", 0) + edges
     res["stats"]["simple_ok"] = res["stats"].get("simple_ok", 0) + nsimple
